@@ -73,10 +73,15 @@ def units_map(prog):
 
 def exponent_lookahead(prog, rep):
     """(introducer characters, set of bytes that make the reader take the introducer as an exponent), from parse_number's own branches"""
-    b = prog.get("haystack::encoding::zinc::decode::scalar::number::parse_number")
+    # the function of the number decoder that decides whether an exponent follows: the one that calls parse_exponent
+    b = None
+    for x in prog.bodies.values():
+        if x.file.endswith("encoding/zinc/decode/scalar/number.rs") and x.rec["kind"] != "Closure" and x.rec.get("name") != "parse_exponent":
+            if any(strip_generics(mir.callee_name(t) or "").endswith("number::parse_exponent") for _bi, t in x.calls()):
+                b = x
     dflt = ("eE", scanai.mask_of(b"+-0123456789"))
     if b is None:
-        rep.gap("parse_number", "-", "not found")
+        rep.gap("parse_number", "-", "no caller of parse_exponent found in the number decoder")
         return dflt
     intro = None
     peek = None
